@@ -876,7 +876,7 @@ fn mkcounter() -> Item {
 
 // ================================================================== FA: aggregates
 
-const FA_RADIX: u64 = 40;
+const FA_RADIX: u64 = 44;
 pub fn fa_count(k: u32) -> u64 {
     seq_count(FA_RADIX, k)
 }
@@ -887,6 +887,8 @@ enum ATy {
     T3n, // (F,(F,F))
     Rec, // {a,b}
     RecT, // {a:(F,F), b:F}
+    T1,   // (F,)
+    Rec1, // {a}
     Arr,  // [F, F, F]
     ArrT, // [(F,F), (F,F)]
 }
@@ -1082,6 +1084,24 @@ fn fa_stmt(c: &mut ACtx, o: u64) -> Option<()> {
             let e = E::Record(vec![("<-".into(), var(&r)), ("b".into(), bin("+", c.f(0)?, num(300.0))), ("a".into(), c.f(2)?)]);
             c.push(v, ATy::Rec, e, "{record <- b = .., a = ..}".into());
         }
+        40 => {
+            let v = c.fresh("t");
+            c.push(v, ATy::T1, E::Tuple(vec![c.f(0)?]), "one-element tuple (a,)".into());
+        }
+        41 => {
+            let t = c.last(ATy::T1)?;
+            let v = c.fresh("p");
+            c.push(v, ATy::F, E::Proj(Box::new(var(&t)), 0), "one-element tuple .0".into());
+        }
+        42 => {
+            let v = c.fresh("r");
+            c.push(v, ATy::Rec1, E::Record(vec![("a".into(), c.f(0)?)]), "single-field record {a = a}".into());
+        }
+        43 => {
+            let r = c.last(ATy::Rec1)?;
+            let v = c.fresh("p");
+            c.push(v, ATy::F, E::Field(Box::new(var(&r)), "a".into()), "single-field record .a".into());
+        }
         34 => {
             let v = c.fresh("a");
             let e = E::Array(vec![c.f(0)?, c.f(2)?, num(3.0)]);
@@ -1151,6 +1171,9 @@ pub fn fa_decode(idx: u64, k: u32) -> Option<Gen> {
             E::Tuple(vec![E::Proj(Box::new(E::Field(Box::new(var(&name)), "a".into())), 0), E::Proj(Box::new(E::Field(Box::new(var(&name)), "a".into())), 1), E::Field(Box::new(var(&name)), "b".into())]),
             Shape::T(vec![Shape::F, Shape::F, Shape::F]),
         ),
+        // one-word aggregates are returned through their only member (dsp's result stays a float)
+        ATy::T1 => (E::Proj(Box::new(var(&name)), 0), Shape::F),
+        ATy::Rec1 => (E::Field(Box::new(var(&name)), "a".into()), Shape::F),
         ATy::Arr => (
             E::Tuple((0..3).map(|i| E::Index(Box::new(var(&name)), Box::new(num(i as f64)))).collect()),
             Shape::T(vec![Shape::F, Shape::F, Shape::F]),
@@ -1762,6 +1785,15 @@ pub fn features(p: &Prog) -> Vec<String> {
                 });
                 if rec_pat {
                     add("has_record_pattern");
+                }
+                let mut one_word = false;
+                walk(&f.body, &mut |x| match x {
+                    E::Tuple(v) if v.len() == 1 => one_word = true,
+                    E::Record(fs) if fs.len() == 1 && fs[0].0 != "<-" => one_word = true,
+                    _ => {}
+                });
+                if one_word {
+                    add("one_word_aggregate");
                 }
                 walk(&f.body, &mut |x| match x {
                     E::Call(n, args, _) => {
